@@ -31,6 +31,14 @@ func (d *PlannerDrop) Process(ctx *shared.PlannerContext) (sql.ISelect, error) {
 	if err != nil {
 		return nil, err
 	}
+	// the remaining label set is a series of its own: streams that differ only in dropped labels are one
+	// series afterwards (as after a parser, and as the in-process drop stage does)
+	cols, err = patchCol(cols, "fingerprint", func(object sql.SQLObject) (sql.SQLObject, error) {
+		return sql.NewRawObject(`cityHash64(arraySort(arrayZip(mapKeys(labels),mapValues(labels))))`), nil
+	})
+	if err != nil {
+		return nil, err
+	}
 	main.Select(cols...)
 	return main, nil
 }
